@@ -1,6 +1,7 @@
 package rules
 
 import (
+	"go/constant"
 	"dirkcheck/internal/an"
 	"dirkcheck/internal/prog"
 
@@ -51,6 +52,11 @@ type AtomPred func(a *an.Atom, s Subst) bool
 // atom is the (non-)truth of a call to a boolean module helper every `pos`-returning path of which passes an accepting
 // edge (MustAtoms, depth <= 3).
 func (c *Ctx) WithSummaries(pred AtomPred) func(b *ssa.BasicBlock, i int, a *an.Atom) bool {
+	return c.WithSummariesFrom(Subst{}, pred)
+}
+
+// WithSummariesFrom is WithSummaries for a frame whose parameters are resolved by base.
+func (c *Ctx) WithSummariesFrom(base Subst, pred AtomPred) func(b *ssa.BasicBlock, i int, a *an.Atom) bool {
 	var judge func(a *an.Atom, s Subst, depth int) bool
 	judge = func(a *an.Atom, s Subst, depth int) bool {
 		if a == nil {
@@ -59,7 +65,61 @@ func (c *Ctx) WithSummaries(pred AtomPred) func(b *ssa.BasicBlock, i int, a *an.
 		if pred(a, s) {
 			return true
 		}
-		if depth >= 3 || (a.Op != "true" && a.Op != "false") {
+		if depth >= 3 {
+			return false
+		}
+		if a.Op == "==" {
+			// [helper(...) == K] for an enum-valued module helper: accepting if every origin of the constant K among the
+			// helper's results lies in the helper itself and is cut there by accepting edges (parameters substituted).
+			for _, side := range [][2]ssa.Value{{a.LV, a.RV}, {a.RV, a.LV}} {
+				call, ok := s.Res(side[0]).(*ssa.Call)
+				k, ok2 := side[1].(*ssa.Const)
+				if !ok || !ok2 || k.Value == nil || k.Value.Kind() != constant.Int {
+					continue
+				}
+				kv, exact := constant.Int64Val(k.Value)
+				f := call.Call.StaticCallee()
+				if !exact || f == nil || !prog.InModule(f) || f.Blocks == nil || f.Signature.Results().Len() != 1 || call.Call.IsInvoke() {
+					continue
+				}
+				ns := Subst{}
+				for kk, v := range s {
+					ns[kk] = v
+				}
+				for i, p := range f.Params {
+					if i < len(call.Call.Args) {
+						ns[p] = s.Res(call.Call.Args[i])
+					}
+				}
+				accept := func(b *ssa.BasicBlock, i int, e *an.Atom) bool { return judge(e, ns, depth+1) }
+				any, bad := false, false
+				for _, ret := range an.Returns(f) {
+					for _, o := range ValueOrigins(an.Result(ret, 0), ret) {
+						if o.Kind != "const" {
+							bad = true
+							continue
+						}
+						if o.Const != kv {
+							continue
+						}
+						if o.Fn != f {
+							bad = true
+							continue
+						}
+						any = true
+						site := o.Site
+						if x, _ := an.Cut(an.CutQuery{From: an.Entry(f), Target: func(i ssa.Instruction) bool { return i == site }, AcceptEdge: accept}); x != nil {
+							bad = true
+						}
+					}
+				}
+				if any && !bad {
+					return true
+				}
+			}
+			return false
+		}
+		if a.Op != "true" && a.Op != "false" {
 			return false
 		}
 		call, ok := s.Res(a.LV).(*ssa.Call)
@@ -122,5 +182,5 @@ func (c *Ctx) WithSummaries(pred AtomPred) func(b *ssa.BasicBlock, i int, a *an.
 		}
 		return any
 	}
-	return func(b *ssa.BasicBlock, i int, a *an.Atom) bool { return judge(a, Subst{}, 0) }
+	return func(b *ssa.BasicBlock, i int, a *an.Atom) bool { return judge(a, base, 0) }
 }
